@@ -173,7 +173,11 @@ pub async fn read_response_frame(
     // TODO: Guard from frames that are too large
     let length = buf.get_u32() as usize;
 
-    let mut raw_body = Vec::with_capacity(length).limit(length);
+    // The announced length is not trusted for the up-front allocation (9 header bytes could
+    // otherwise request up to 4 GiB): beyond this bound the buffer grows, by amortised doubling,
+    // only as the body actually arrives.
+    const MAX_BODY_PREALLOCATION: usize = 1 << 20;
+    let mut raw_body = Vec::with_capacity(length.min(MAX_BODY_PREALLOCATION)).limit(length);
     while raw_body.has_remaining_mut() {
         let n = reader.read_buf(&mut raw_body).await.map_err(|err| {
             FrameHeaderParseError::BodyChunkIoError(raw_body.remaining_mut(), err)
